@@ -92,7 +92,8 @@ def encode(ctx, T, cfgv, name='rgb'):
     ptr = Ptr(st.alloc(rgb), ())
     tup = find_type(ctx.crate, '(&rgb::Rgb, yuv::YuvConfig)')
     key = ctx.entry('<yuv::Yuv<%s> as std::convert::TryFrom<(&rgb::Rgb, yuv::YuvConfig)>>::try_from' % T)
-    outs = it.call_fn(st, key, [Agg('tuple', tup, [ptr, cfgv])])
+    from .conv import drop_empty_image_outcomes
+    outs = drop_empty_image_outcomes(ctx, it.call_fn(st, key, [Agg('tuple', tup, [ptr, cfgv])]))
     return it, outs, rgb, w, h
 
 def yuv_planes(ctx, st, yuv):
